@@ -1022,6 +1022,11 @@ def check(program, rep):
     rep.guard("C15-R3", r3_scp_decoder, program, folder, rep)
     rep.guard("C15-R3", r3_scp_payload, program, folder, rep)
     rep.guard("C15-R4", r4_constants, program, folder, rep)
+    # the slips that are visible wherever they occur (NAMELINK, FALSY, STALE,
+    # NOEFFECT, SLIPS - DESIGN.md 9.13-9.15), over the property's modules
+    from .. import namelink as _nl
+    rep.guard("C15-R5", _nl.rule, program, rep, "C15-R5",
+              ['rig.machine_control.packets'], floor=0)
     return finish(rep, program, EXPLANATION, NOT_DECIDED,
                   trusted=["the documented SDP header table SDP_LAYOUT in "
                            "rules/C15.py", "struct format semantics "
